@@ -338,6 +338,17 @@ def cond_name(body, e):
     return None, neg
 
 
+def flag_eval(flag, val):
+    """expression evaluator for pathsens.reachable_under: the value of a bool expression that is (the negation of) a
+    read of the flag named `flag`, under the assumption flag == val; None for anything else"""
+    def ev(body, e):
+        nm, neg = cond_name(body, e)
+        if nm != flag:
+            return None
+        return val != neg
+    return ev
+
+
 def force_flag(flag, val):
     """forced-successor function for pathsens: switches on the bool flag named `flag` take the edge for `val`"""
     def fz(body, sw):
